@@ -83,6 +83,37 @@ def _seed_trio(sched_seed: int) -> None:
     tr._r.seed(sched_seed)
 
 
+def _trio_deadlock_detector() -> Any:
+    """Under MockClock(autojump_threshold=0) a trio run in which every task is blocked and no
+    deadline exists spins forever (there is nothing to jump to): a deadlock that not even
+    cancellation resolves (e.g. a shielded wait).  The detector then resumes every blocked task
+    below the main task with ``Deadlock`` so that the run unwinds instead of hanging in real time."""
+    import outcome
+    import trio
+    from trio._core._run import GLOBAL_RUN_CONTEXT
+
+    class Detector(trio.abc.Instrument):
+        def before_io_wait(self, timeout: float) -> None:
+            runner = GLOBAL_RUN_CONTEXT.runner
+            # nothing runnable, no deadline the autojump clock could jump to, nobody in
+            # wait_all_tasks_blocked: the program can only be woken from outside
+            if runner.runq or runner.waiting_for_idle or runner.deadlines.next_deadline() != float("inf"):
+                return
+            if runner.entry_queue.queue or runner.entry_queue.idempotent_queue:
+                return
+            main = runner.main_task
+            stack = [main]
+            while stack:
+                task = stack.pop()
+                for nursery in task.child_nurseries:
+                    stack.extend(nursery.child_tasks)
+                if task._abort_func is not None and task._next_send_fn is None:
+                    task._abort_func = None
+                    trio.lowlevel.reschedule(task, outcome.Error(Deadlock("trio: every task is blocked and there is no deadline")))
+
+    return Detector()
+
+
 def backend_options(backend: str, sched_seed: int = 0) -> dict[str, Any]:
     if backend == "asyncio":
         return {"loop_factory": VLoop}
@@ -90,7 +121,7 @@ def backend_options(backend: str, sched_seed: int = 0) -> dict[str, Any]:
         import trio.testing
 
         _seed_trio(sched_seed)
-        return {"clock": trio.testing.MockClock(autojump_threshold=0)}
+        return {"clock": trio.testing.MockClock(autojump_threshold=0), "instruments": [_trio_deadlock_detector()]}
     raise ValueError(backend)
 
 
@@ -116,7 +147,24 @@ def run_virtual(
             raise Deadlock("virtual watchdog expired")
         return result
 
-    return anyio.run(main, backend=backend, backend_options=backend_options(backend, sched_seed))
+    try:
+        return anyio.run(main, backend=backend, backend_options=backend_options(backend, sched_seed))
+    except BaseExceptionGroup as exc:
+        # the trio detector injects Deadlock into several tasks: report it as one Deadlock
+        leaves = _leaves(exc)
+        dl = [e for e in leaves if isinstance(e, Deadlock)]
+        if dl:
+            raise dl[0] from None
+        raise
+
+
+def _leaves(exc: BaseException) -> list[BaseException]:
+    if isinstance(exc, BaseExceptionGroup):
+        out: list[BaseException] = []
+        for e in exc.exceptions:
+            out.extend(_leaves(e))
+        return out
+    return [exc]
 
 
 def now() -> float:
